@@ -357,7 +357,8 @@ class SsbOpParamPositionMarker:
         return f"{self.y_relative}{y_offset_marker}"
 
     def __str__(self) -> str:
-        return f"Position<'{self.name}', {self.x_final}, {self.y_final}>"
+        name = escape_newlines(escape_quotes(self.name, which_quotes="'"))
+        return f"Position<'{name}', {self.x_final}, {self.y_final}>"
 
     def __repr__(self) -> str:
         return f"SsbOpParamPositionMarker('{self.name}', {self.x_offset}, {self.y_offset}, {self.x_relative}, {self.y_relative})"
